@@ -27,7 +27,8 @@ class Engine(EngineBase):
 
     def rule(self):
         return ("seeded actor scripts (2-3 process-actors x 3-6 statements over 1-3 state points, same or "
-                "different jobs, start state empty / no workspace directory / populated) x seeded schedules "
+                "different jobs, document writes spelled as item assignment / update() / whole assignment through a "
+                "used or an untouched handle, start state empty / no workspace directory / populated) x seeded schedules "
                 "(random walk, PCT depth 1-3) at file-system-call granularity; evaluations = schedules run. "
                 "distinct = happens-before fingerprints (per path: sequence of (actor, call kind)); "
                 "non-trivial = at least 2 pre-emptions between actors")
@@ -55,6 +56,11 @@ class Engine(EngineBase):
                 elif k == "write":
                     tag += 1
                     st.append([k, rng.choice("pq"), f"a{a}w{tag}"])
+                    # how the write is spelled: item assignment, update(), or assignment of the whole document
+                    # (through the cached handle or through one that never looked at its document)
+                    how = rng.choice(["item", "item", "item", "update", "assign", "assign_fresh"])
+                    if how != "item":
+                        st[-1].append(how)
                 elif k == "read":
                     st.append([k, rng.randrange(nsp)])
                 else:
@@ -194,9 +200,17 @@ class Engine(EngineBase):
                 elif k == "write":
                     i = script["own"]
                     job = jobs.get(i) or jobs.setdefault(i, project.open_job(own_sp))
+                    how = st[3] if len(st) > 3 else "item"
                     t0 = hist.tick()
-                    job.doc[st[1]] = st[2]
-                    hist.writes.setdefault(i, []).append((t0, hist.tick(), st[1], st[2]))
+                    if how == "item":
+                        job.doc[st[1]] = st[2]
+                    elif how == "update":
+                        job.doc.update({st[1]: st[2], "u": st[2]})
+                    elif how == "assign":
+                        job.doc = {st[1]: st[2]}
+                    else:
+                        project.open_job(own_sp).doc = {st[1]: st[2]}
+                    hist.writes.setdefault(i, []).append((t0, hist.tick(), st[1], st[2], how))
                     hist.inited.add(i)
                 elif k == "read":
                     i = st[1]
@@ -236,8 +250,8 @@ class Engine(EngineBase):
             if st != "ok" or not same(spv, sp):
                 return ("final:statepoint", f"job {i}: state point file {st} {spv}")
             doc = dict(init_docs.get(i, {}))
-            for _, _, k, v in hist.writes.get(i, []):
-                doc[k] = v
+            for w in hist.writes.get(i, []):
+                doc = apply_write(doc, w)
             dst, dv = raw[jid]["doc"]
             if not ((dst == "absent" and doc == {}) or (dst == "ok" and same(dv, doc))):
                 return ("final:document", f"job {i}: document {dst} {dv}, its writer's sequential result is {doc}")
@@ -246,6 +260,18 @@ class Engine(EngineBase):
         if leftovers:
             return ("final:leftover-temporary-files", f"{leftovers[:4]}")
         return None
+
+
+def apply_write(doc, w):
+    """The document after write w = (t0, t1, key, value, how) in the writer's sequential order."""
+    _, _, k, v, how = w
+    if how in ("assign", "assign_fresh"):
+        return {k: v}
+    d = dict(doc)
+    d[k] = v
+    if how == "update":
+        d["u"] = v
+    return d
 
 
 class History:
@@ -267,13 +293,11 @@ class History:
         for t0, t1, i, val, who in self.reads:
             states = [dict(init_docs.get(i, {}))]
             ws = self.writes.get(i, [])
-            for _, _, k, v in ws:
-                d = dict(states[-1])
-                d[k] = v
-                states.append(d)
+            for w in ws:
+                states.append(apply_write(states[-1], w))
             lo = 0
             hi = 0
-            for j, (w0, w1, _, _) in enumerate(ws, 1):
+            for j, (w0, w1, *_rest) in enumerate(ws, 1):
                 if w1 < t0:
                     lo = j
                 if w0 < t1:
